@@ -183,4 +183,60 @@ example : encIntColumn false ([some 5, none, some 5, some 9].map (Option.map Int
 example : encIntColumn false ([some 0, some (2 ^ 63 - 2)].map (Option.map Int.ofNat)) 63 = .error .other := by
   decide +kernel
 
+/-- The decoder's column reader and the independent reader written from regulation 94.6.3 note (2)
+    (`Spec.readColumnSpec`, position arithmetic instead of a consuming reader) agree on EVERY bit
+    string, every width and every subset count: same column, same unread rest, same error family.
+    In particular the decoder's special rule "a one-bit increment of 1 is missing" is exactly the
+    regulation's uniform "all ones is missing". -/
+theorem C05_spec_reader_agrees (w n : Nat) (bs : Bits) :
+    readColumn w n bs = Spec.readColumnSpec w n bs := by
+  by_cases hw0 : w = 0
+  · simp [readColumn, readUIntOrNone, readUInt_eq, Spec.readColumnSpec, hw0]
+  by_cases hl : bs.length < w
+  · simp [readColumn, readUIntOrNone, readUInt_eq, Spec.readColumnSpec, hw0, hl]
+  by_cases h64 : 64 < w
+  · simp [readColumn, readUIntOrNone, readUInt_eq, Spec.readColumnSpec, hw0, hl, h64]
+  by_cases hl6 : bs.length < w + 6
+  · have : bs.length - w < 6 := by omega
+    by_cases hm : 1 < w ∧ ofBits (bs.take w) = 2 ^ w - 1 <;>
+      simp [readColumn, readUIntOrNone, readUInt_eq, Spec.readColumnSpec, hw0, hl, h64, hl6, hm, this]
+  have hl6' : ¬ (bs.length - w < 6) := by omega
+  have hlen : (bs.take w).length = w := by rw [List.length_take]; omega
+  have hmax := ofBits_eq_max_iff (bs.take w)
+  rw [hlen] at hmax
+  have hnd : ofBits ((bs.drop w).take 6) < 64 := by
+    have h := ofBits_lt ((bs.drop w).take 6)
+    have : ((bs.drop w).take 6).length = 6 := by simp only [List.length_take, List.length_drop]; omega
+    rw [this] at h; exact h
+  have hB : readUInt 6 (bs.drop w) = .ok (ofBits ((bs.drop w).take 6), bs.drop (w + 6)) := by
+    simp only [readUInt_eq, List.length_drop, hl6', List.drop_drop, if_false]
+    simp
+  have hA : readUIntOrNone w bs = .ok ((if 1 < w ∧ (bs.take w).all id = true then none
+      else some (ofBits (bs.take w))), bs.drop w) := by
+    simp only [readUIntOrNone, readUInt_eq, hw0, hl, h64, if_false, hmax]
+    by_cases hm : 1 < w ∧ (bs.take w).all id = true
+    · rw [if_pos hm, if_pos hm]
+    · rw [if_neg hm, if_neg hm]
+  simp only [Spec.readColumnSpec, hw0, hl, h64, hl6, if_false]
+  by_cases hm : 1 < w ∧ (bs.take w).all id = true
+  · simp only [readColumn, hA, hB, hm, and_self, if_true]
+  · simp only [readColumn, hA, hB, hm, if_false]
+    by_cases hz : ofBits ((bs.drop w).take 6) = 0
+    · simp only [hz, if_true]
+    · have hd : 0 < ofBits ((bs.drop w).take 6) := by omega
+      simp only [hz, if_false, readDiffs_eq _ _ n _ hd (by omega), List.length_drop, List.drop_drop]
+      have hc : (bs.length - (w + 6) < n * ofBits ((bs.drop w).take 6)) ↔
+          (bs.length < w + 6 + n * ofBits ((bs.drop w).take 6)) := by omega
+      simp only [hc]
+      have he : ∀ i, incrVal (ofBits ((bs.drop w).take 6)) (ofBits (bs.take w)) (bs.drop (w + 6)) i =
+          Spec.entryAt w (ofBits ((bs.drop w).take 6)) (ofBits (bs.take w)) bs i := by
+        intro i; simp only [incrVal, Spec.entryAt, Spec.incrAt, List.drop_drop]; rfl
+      rw [List.map_congr_left (fun i _ => he i)]
+
+/-- non-vacuity (both succeed / both fail with the same family) -/
+example : Spec.readColumnSpec 4 3 (Spec.intColumnBitsWith 1 [some 5, none, some 5] 4 ++ [true]) =
+      .ok ([some 5, none, some 5], [true]) ∧
+    Spec.readColumnSpec 4 3 (Spec.intColumnBitsWith 3 [some 5, none, some 5] 4).dropLast = .error .bitRead ∧
+    Spec.readColumnSpec 4 3 (ones 4 ++ toBits 6 2) = .error .other := by decide
+
 end Bufr
